@@ -7,18 +7,30 @@ use serde::{Deserialize, Serialize};
 #[derive(Clone, Copy, Debug, PartialEq, Eq)]
 pub struct SinkErr(pub usize);
 
+thread_local! {
+    static KIND_SHIFT: std::cell::Cell<usize> = const { std::cell::Cell::new(0) };
+}
+
+/// Every kind `embedded_io` names (the enum is non-exhaustive; these are all of 0.6.1)
+pub const KINDS: [embedded_io::ErrorKind; 18] = {
+    use embedded_io::ErrorKind::*;
+    [
+        Other, Interrupted, TimedOut, BrokenPipe, WriteZero, Unsupported, OutOfMemory, InvalidInput, InvalidData, NotFound, PermissionDenied, ConnectionRefused, ConnectionReset, ConnectionAborted,
+        NotConnected, AddrInUse, AddrNotAvailable, AlreadyExists,
+    ]
+};
+
+/// Which kind the error of sink call k reports: `KINDS[(k + shift) % 18]` on this thread
+pub fn set_kind_shift(shift: usize) {
+    KIND_SHIFT.with(|c| c.set(shift));
+}
+
 impl embedded_io::Error for SinkErr {
-    /// The kind varies with the failing call, so that code which treats some kinds specially (retrying `Interrupted`,
-    /// say) is exercised: whatever its kind, a sink error is reported by the call during which it was raised.
+    /// The kind varies with the failing call and with the fault's `kind` field, so that code which treats some kinds specially
+    /// (retrying `Interrupted`, shrugging off `Unsupported`) is exercised: whatever its kind, a sink error is reported by the
+    /// call during which it was raised.
     fn kind(&self) -> embedded_io::ErrorKind {
-        use embedded_io::ErrorKind::*;
-        match self.0 % 5 {
-            0 => Other,
-            1 => Interrupted,
-            2 => TimedOut,
-            3 => BrokenPipe,
-            _ => WriteZero,
-        }
+        KINDS[(self.0 + KIND_SHIFT.with(|c| c.get())) % KINDS.len()]
     }
 }
 
@@ -38,6 +50,9 @@ pub struct Fault {
     /// in the middle of a key's encoding)
     #[serde(default)]
     pub outage: u8,
+    /// added to the call index to choose the `ErrorKind` the error reports (see `KINDS`)
+    #[serde(default)]
+    pub kind: u8,
 }
 
 #[derive(Debug, Default)]
@@ -73,6 +88,7 @@ pub struct RecSink(pub Rc<RefCell<SinkState>>);
 
 impl RecSink {
     pub fn new(short_writes: bool, fault: Option<Fault>) -> (Self, Rc<RefCell<SinkState>>) {
+        set_kind_shift(fault.map(|f| f.kind as usize).unwrap_or(0));
         let st = Rc::new(RefCell::new(SinkState {
             short_writes,
             fault,
